@@ -6,11 +6,10 @@ open Irismod Irismod.Sdk Irismod.Farm Irismod.Spec Irismod.Spec.C05 Irismod.Prop
 #print axioms stakes_sum_reachable
 #print axioms inv_init
 #print axioms inv_step
-#print axioms module_account_partial
-#print axioms module_account_can_fail
-#print axioms principal_covered_partial
+#print axioms module_account_run
+#print axioms principal_covered_run
 #print axioms withdraw_can_fail
 #print axioms unstake_ok_partial
--- non-vacuity: the F-farm-1 history up to A1's harvest is Clean (no F-farm-2 operation), reaches a state with two
+-- non-vacuity: the F-farm-1 history up to A1's harvest reaches a state with two
 -- farmers of positive stake whose stakes add up to the pool total, and A1 (whom the collector can pay) can withdraw
-#eval s!"nonvacuous {decide (stakedSum (run w1Genesis (w1Ops.take 5)) "farm-1" = 2) && decide (lockedOf (run w1Genesis (w1Ops.take 5)) "farm-1" = 2) && isOkE (step (run w1Genesis (w1Ops.take 6)) (.unstake "A1" "farm-1" "lpt-1" 1)) && (moduleAccountDiffs (run w1Genesis w1Ops)).isEmpty && budgetOkPool ((getPool (run w1Genesis w1Ops) "farm-1").getD default)}"
+#eval s!"nonvacuous {decide (stakedSum (run w1Genesis (w1Ops.take 5)) "farm-1" = 2) && decide (lockedOf (run w1Genesis (w1Ops.take 5)) "farm-1" = 2) && isOkE (step (run w1Genesis (w1Ops.take 6)) (.unstake "A1" "farm-1" "lpt-1" 1)) && (moduleAccountDiffs (run w1Genesis w1Ops)).isEmpty && budgetOkPool ((getPool (run w1Genesis w1Ops) "farm-1").getD default) && (moduleAccountDiffs (run w2Genesis w2Ops)).isEmpty}"
